@@ -150,7 +150,7 @@ impl Default for Opts {
             move_macro: false,
             active_test: None,
             max_passes: 64,
-            fuel: 2_000_000,
+            fuel: 300_000,
             keep_ctx: false,
         }
     }
@@ -255,10 +255,15 @@ pub fn codegen_tree(tree: Arc<ParseTree>, opts: &Opts) -> Result<Gen, PanicInfo>
         Rc::new(RefCell::new((vec![], Stop::None, 0, vec![])));
     let st = state.clone();
     let max_passes = opts.max_passes;
+    let fuel = opts.fuel;
     verif_hooks::set_fuel(opts.fuel);
     verif_hooks::set_pass_observer(Box::new(move |info| {
         let mut s = st.borrow_mut();
         s.2 = info.pass_idx + 1;
+        // the fuel budget is per pass
+        if !verif_hooks::fuel_exhausted() {
+            verif_hooks::set_fuel(fuel);
+        }
         // pass 0 runs without a segment (no labels yet): the first pass that places code is pass 1
         if info.pass_idx == 1 {
             s.3 = info.symbols.clone();
